@@ -2,6 +2,7 @@
   The complete machine: the core calls of Step.lean plus the cryptographic and key-generation calls of Ops.lean.
 -/
 import Shm.Model.Ops
+import Shm.Model.Wrap
 namespace Shm
 
 /-- observation of an output-producing call: return code, reported length, bytes -/
@@ -29,6 +30,9 @@ inductive OpCall
   | verifyFinal (h : Nat) (sigLen : Option Nat) (oRv : RV)
   | genKey (h mech : Nat) (tpl : Template) (oRv : RV)
   | genPair (h mech : Nat) (pubT privT : Template) (oRv : RV)
+  | wrap (h mech : Nat) (p : MParam) (wk key : Nat) (cap : Option Nat) (o : OutObs)
+  | unwrap (h mech : Nat) (p : MParam) (uk : Nat) (blob : Option Bytes) (tpl : Template) (oRv : RV)
+  | derive (h mech : Nat) (p : MParam) (bk : Nat) (tpl : Template) (oRv : RV)
   deriving Repr, Inhabited
 
 def sortNat (l : List Nat) : List Nat := l.foldr insertAscN []
@@ -59,6 +63,9 @@ def stepOp (s : State) (c : OpCall) : State × Resp :=
     | .verifyFinal h sl oRv => stepVerify s false h (some 0) sl oRv
     | .genKey h mech tpl oRv => stepGenKey s h mech tpl oRv
     | .genPair h mech p v oRv => stepGenPair s h mech p v oRv
+    | .wrap h mech p wk key cap o => stepWrap s h mech p wk key cap o.rv o.len o.data
+    | .unwrap h mech p uk blob tpl oRv => stepUnwrap s h mech p uk blob tpl oRv
+    | .derive h mech p bk tpl oRv => stepDerive s h mech p bk tpl oRv
 
 inductive AnyCall
   | core (c : Call)
